@@ -3,6 +3,7 @@
 package kcp
 
 import (
+	"sync/atomic"
 	"bytes"
 	"encoding/binary"
 	"encoding/hex"
@@ -65,6 +66,7 @@ type coreSim struct {
 	emitted   [2]map[uint32]int // PUSH transmissions per sn, per sender
 	trace     []string          // offset-normalised observable trace (C12), when traceOn
 	traceOn   bool
+	tw        [2]timeoutWatch
 }
 
 func (s *coreSim) logf(format string, a ...any) {
@@ -261,6 +263,7 @@ func (s *coreSim) Input(e int, d []byte, regular, acknd bool) int {
 	}
 	var ret int
 	in := append([]byte(nil), d...)
+	before := s.snapshot(e)
 	p, why := s.guarded(func() { ret = s.k[e].Input(in, pt, acknd) })
 	if p {
 		s.logf("input %d %d %d %d %s = P\n", e, s.now, r, a, hx(d))
@@ -275,6 +278,7 @@ func (s *coreSim) Input(e int, d []byte, regular, acknd bool) int {
 	if ret != 0 {
 		s.stats[fmt.Sprintf("input-ret%d", ret)]++
 	}
+	s.monFlushX(e, before, o, true, false)
 	s.monAfter(e, "Input")
 	return ret
 }
@@ -371,11 +375,20 @@ type coreSnap struct {
 	rmtWnd, cwnd, sndUna, sndNxt uint32
 	sndBuf                        int
 	maxXmit                       map[uint32]uint32
+	lost, fast, early             uint64
+}
+
+// state of the "after a timeout loss" monitor, per endpoint
+type timeoutWatch struct {
+	pending bool
+	una     uint32 // oldest outstanding segment when the timeout retransmission happened
+	frSince bool   // a fast/early retransmission happened in a LATER flush (upstream fast-recovery arithmetic)
 }
 
 func (s *coreSim) snapshot(e int) coreSnap {
 	k := s.k[e]
-	sn := coreSnap{rmtWnd: k.rmt_wnd, cwnd: k.cwnd, sndUna: k.snd_una, sndNxt: k.snd_nxt, sndBuf: k.snd_buf.Len(), maxXmit: map[uint32]uint32{}}
+	sn := coreSnap{rmtWnd: k.rmt_wnd, cwnd: k.cwnd, sndUna: k.snd_una, sndNxt: k.snd_nxt, sndBuf: k.snd_buf.Len(), maxXmit: map[uint32]uint32{},
+		lost: atomic.LoadUint64(&DefaultSnmp.LostSegs), fast: atomic.LoadUint64(&DefaultSnmp.FastRetransSegs), early: atomic.LoadUint64(&DefaultSnmp.EarlyRetransSegs)}
 	k.snd_buf.ForEach(func(g *segment) bool { sn.maxXmit[g.sn] = g.xmit; return true })
 	return sn
 }
@@ -398,6 +411,7 @@ type coreMon struct {
 	windows    bool
 	outputSize bool
 	rto        bool
+	cc         bool // congestion-control clauses of C04 (cwnd after a timeout loss)
 }
 
 var curMon coreMon
@@ -513,7 +527,30 @@ func parseWire(d []byte) (segs []wireSeg, ok bool) {
 // monFlush: C04 - truthful window; a new segment goes on the wire only while fewer than
 // min(snd_wnd, rmt_wnd[, cwnd]) are outstanding (judged with the windows seen by this flush).
 func (s *coreSim) monFlush(e int, before coreSnap, outs [][]byte, full bool) {
+	s.monFlushX(e, before, outs, full, true)
+}
+
+// monFlushX: admission=false when the flush ran inside Input (the windows it saw are not `before`'s)
+func (s *coreSim) monFlushX(e int, before coreSnap, outs [][]byte, full bool, admission bool) {
 	k := s.k[e]
+	lost := atomic.LoadUint64(&DefaultSnmp.LostSegs) - before.lost
+	fr := atomic.LoadUint64(&DefaultSnmp.FastRetransSegs) - before.fast + atomic.LoadUint64(&DefaultSnmp.EarlyRetransSegs) - before.early
+	tw := &s.tw[e]
+	if curMon.cc && k.nocwnd == 0 {
+		if tw.pending && k.snd_una != tw.una {
+			tw.pending = false // the oldest outstanding segment has been acknowledged
+		}
+		if lost > 0 {
+			s.rep.Monitors["cwnd-after-timeout"]++
+			// C04: after a timeout loss the congestion window is one segment
+			if k.cwnd != 1 {
+				s.violate("core-cwnd-not-reset-after-timeout", fmt.Sprintf("a flush retransmitted %d segment(s) on timeout and left cwnd=%d (expected 1)", lost, k.cwnd))
+			}
+			*tw = timeoutWatch{pending: true, una: k.snd_una}
+		} else if fr > 0 && tw.pending {
+			tw.frSince = true
+		}
+	}
 	for _, d := range outs {
 		segs, ok := parseWire(d)
 		if curMon.windows {
@@ -543,7 +580,15 @@ func (s *coreSim) monFlush(e int, before coreSnap, outs [][]byte, full bool) {
 						if k.nocwnd == 0 {
 							lim = min(lim, before.cwnd)
 						}
-						if w.sn-before.sndUna >= lim {
+						if curMon.cc && tw.pending && k.nocwnd == 0 && lost == 0 && k.snd_una == tw.una && _itimediff(w.sn, tw.una) > 0 {
+							s.rep.Monitors["admit-after-timeout"]++
+							if tw.frSince {
+								s.violate("core-admit-after-timeout:fast-recovery", fmt.Sprintf("new segment sn=%d put on the wire after a timeout loss while the oldest outstanding segment sn=%d is unacknowledged (cwnd re-opened to %d by a later fast/early retransmission)", w.sn, tw.una, before.cwnd))
+							} else {
+								s.violate("core-admit-after-timeout", fmt.Sprintf("new segment sn=%d put on the wire after a timeout loss while the oldest outstanding segment sn=%d is unacknowledged (cwnd=%d)", w.sn, tw.una, before.cwnd))
+							}
+						}
+						if admission && w.sn-before.sndUna >= lim {
 							if was {
 								s.violate("core-first-xmit-lag", fmt.Sprintf("segment sn=%d numbered by an earlier ack-only flush is first transmitted with %d outstanding and a window of %d", w.sn, w.sn-before.sndUna, lim))
 							} else {
